@@ -150,7 +150,22 @@ fn type_src_with_layout(t: &TypeExpr, rng: &mut Rng) -> String {
 
 /// A source of any class: accepted, conflicting, every kind of error.
 fn any_source(rng: &mut Rng, seed: u64, n: u64) -> (String, String) {
-    match rng.below(10) {
+    match rng.below(13) {
+        10..=12 => {
+            // several simultaneous violations of one kind (1-2 kinds per file)
+            let m = small_model(rng);
+            let src = m.render();
+            match crate::rkiki::reference_ast(&src) {
+                Ok(mut items) => {
+                    let mut tags = vec![gtext::inject_many(&mut items, rng)];
+                    if rng.chance(0.3) {
+                        tags.push(gtext::inject_many(&mut items, rng));
+                    }
+                    (format!("multi:{}", tags[0]), gtext::render_items(&items))
+                }
+                Err(_) => ("grammar".into(), src),
+            }
+        }
         0..=3 => {
             let m = small_model(rng);
             ("grammar".into(), m.render())
